@@ -115,3 +115,11 @@ Theorem C15_draw_exact : forall k div_nan, (k < 2 ^ 53)%N ->
   Flocq.IEEE754.Binary.is_finite 53 1024 d = true /\ Flocq.IEEE754.Binary.B2R 53 1024 d = GateIEEE.draw_R k.
 Proof. exact GateIEEE.draw_exact. Qed.
 Print Assumptions C15_draw_exact.
+
+(* the same for the seeded PRNG's draw: `(next_u64 >> 11) as f64 * 2^-53` (rand 0.9) *)
+Theorem C15_draw_exact_prng : forall k mult_nan, (k < 2 ^ 53)%N ->
+  let d := Flocq.IEEE754.Binary.Bmult 53 1024 GateIEEE.Hprec GateIEEE.Hemax mult_nan Flocq.IEEE754.BinarySingleNaN.mode_NE
+             (GateIEEE.of_int (Z.of_N k)) GateIEEE.two_m53 in
+  Flocq.IEEE754.Binary.is_finite 53 1024 d = true /\ Flocq.IEEE754.Binary.B2R 53 1024 d = GateIEEE.draw_R k.
+Proof. exact GateIEEE.draw_exact_mul. Qed.
+Print Assumptions C15_draw_exact_prng.
